@@ -42,7 +42,7 @@ def runCase (msgs : List PMsg) : Json := Id.run do
     match p.add m with
     | .ok (done, p') =>
       p := p'
-      steps := steps.push (Json.mkObj [("y", Json.arr (done.map taskJ).toArray),
+      steps := steps.push (Json.mkObj [("y", Json.arr (done.map fun e => taskJ e.2).toArray),
                                        ("i", Json.mkObj (p.map fun (u, t) => (u, taskJ t)))])
     | .error e =>
       steps := steps.push (Json.mkObj [("err", toJson (reprStr e))])
